@@ -98,7 +98,9 @@ def run(ctx):
                     if dspec["form"] == "dict":
                         srt = sorted(dspec["keys"])
                         code_assign = tuple(srt.index(k) for k in dspec["keys"])
-                    for v in gen.tied_label_variants(dspec):
+                    # (the listed finding needs a non-chronological input; on chronological input, ties included, the pinned
+                    # code labels correctly and nothing is explained away)
+                    for v in (gen.tied_label_variants(dspec) if not chrono else []):
                         lb = gen.linear_problem(dspec, ps, code_assign, concat_labels=v)
                         allok = True
                         for r in range(len(ll)):
